@@ -361,6 +361,9 @@ func runSameKey(c *Ctx, addIndex *ssa.Function) {
 				c.Fail(key, call.Pos(), "constraints are compared with %s, which looks at every field of every column — direction and the spelling of names included: `PRIMARY KEY DESC UNIQUE`, `UNIQUE(a DESC, b), UNIQUE(a, b DESC)` or `UNIQUE(A), PRIMARY KEY(a)` are one key with one index in SQLite, and every automatic index after them is numbered accordingly", calleeName(p, call))
 			default:
 				why := sameKeyComparator(p, callee)
+				if why == "" {
+					why = keyCmpTable(p, callee)
+				}
 				c.Check(why == "", key, call.Pos(), "constraints are compared by column (whatever the spelling) and collation, not by direction %s", why)
 			}
 		}
@@ -434,7 +437,17 @@ func stripMakeInterface(v ssa.Value) ssa.Value {
 
 // sameKeyComparator: "" when fn (with the module functions it calls) compares two column lists by length, column name
 // without regard to case, and collation — and never reads a direction.
-func sameKeyComparator(p *Program, fn *ssa.Function) string {
+func sameKeyComparator(p *Program, fn *ssa.Function) string { return keyComparator(p, fn, true) }
+
+// sameColumnComparator: the same for a function that compares two single key columns (no lengths to compare).
+func sameColumnComparator(p *Program, fn *ssa.Function) string {
+	if len(fn.Params) != 2 || !typeIs(fn.Params[0].Type(), modPkgPath("db"), "IndexColumn") || !typeIs(fn.Params[1].Type(), modPkgPath("db"), "IndexColumn") {
+		return "— it does not take two key columns"
+	}
+	return keyComparator(p, fn, false)
+}
+
+func keyComparator(p *Program, fn *ssa.Function, lists bool) string {
 	seen := map[*ssa.Function]bool{}
 	var fns []*ssa.Function
 	var visit func(f *ssa.Function)
@@ -447,7 +460,7 @@ func sameKeyComparator(p *Program, fn *ssa.Function) string {
 		for _, cs := range callsIn(f) {
 			// only helpers that compare two strings belong to the comparison; a function that merely CALLS a
 			// comparator over column lists (an "is it in this list" wrapper) is not one itself
-			if cal := cs.Common().StaticCallee(); cal != nil && p.InModule(cal) && allStringParams(cal) {
+			if cal := cs.Common().StaticCallee(); cal != nil && p.InModule(cal) && (allStringParams(cal) || sameColumnParams(cal)) {
 				visit(cal)
 			}
 		}
@@ -494,10 +507,117 @@ func sameKeyComparator(p *Program, fn *ssa.Function) string {
 		return "— column names are not compared without regard to case"
 	case reads["Collate"] < 2:
 		return "— collations are not compared"
-	case !lens:
+	case !lens && lists:
 		return "— the number of columns is not compared"
 	}
 	return ""
+}
+
+// keyCmpTable: the decision table of a comparator of key columns (two lists, or two single columns), by paths, with
+// freshly written helpers walked in place: it answers true only on paths on which every comparison of names (without
+// regard to case) and of collations it made came out equal, each name comparison paired with a collation comparison;
+// it answers false only on paths on which some comparison — or the lengths — came out unequal.
+func keyCmpTable(p *Program, fn *ssa.Function) string {
+	t := &Termer{P: p}
+	paths, ok := EnumLits(fn.Blocks[0], 0, TabOpts{Termer: t, EventOf: callEvents(p), Limit: 50000})
+	if !ok {
+		return "— too many paths to read its decision table"
+	}
+	kindOf := func(l Lit) string {
+		v := l.Cond
+		for {
+			if u, ok := v.(*ssa.UnOp); ok && u.Op == token.NOT {
+				v = u.X
+				continue
+			}
+			break
+		}
+		if bo, ok := v.(*ssa.BinOp); ok && (bo.Op == token.EQL || bo.Op == token.NEQ) {
+			lx, ly := t.Term(bo.X, l.PS), t.Term(bo.Y, l.PS)
+			if strings.HasPrefix(lx, "len(") && strings.HasPrefix(ly, "len(") {
+				return "len"
+			}
+		}
+		call, ok := v.(*ssa.Call)
+		if !ok || call.Call.StaticCallee() == nil || len(call.Call.Args) != 2 {
+			return ""
+		}
+		a0, a1 := reGen.ReplaceAllString(t.Term(call.Call.Args[0], l.PS), ""), reGen.ReplaceAllString(t.Term(call.Call.Args[1], l.PS), "")
+		cal := call.Call.StaticCallee()
+		switch {
+		case isLibFunc(cal, "strings", "EqualFold") && strings.HasSuffix(a0, ".Column") && strings.HasSuffix(a1, ".Column"):
+			return "name"
+		case strings.HasSuffix(a0, ".Collate") && strings.HasSuffix(a1, ".Collate") && p.InModule(cal) && allStringParams(cal):
+			return "coll"
+		case sameColumnParams(cal) && p.InModule(cal) && sameColumnComparator(p, cal) == "" && keyCmpTable(p, cal) == "":
+			return "both"
+		}
+		return ""
+	}
+	for _, lp := range paths {
+		if lp.Exit == nil || len(lp.Exit.Results) != 1 {
+			continue
+		}
+		if len(lp.Unknown) > 0 {
+			return fmt.Sprintf("— its answer depends on a condition the rule cannot read: %v", lp.Unknown)
+		}
+		res, isC := constBool(lp.PS.Resolve(lp.Exit.Results[0]))
+		if !isC {
+			return "— its answer is not a constant on path [" + pathDesc(lp) + "]"
+		}
+		nameT, collT, unequal := 0, 0, false
+		for _, l := range lp.Lits {
+			isTrue := false
+			switch {
+			case l.C == "true" && (l.Op == token.EQL || l.Op == token.NEQ):
+				isTrue = (l.Op == token.EQL) == l.Val
+			case l.C == "false" && (l.Op == token.EQL || l.Op == token.NEQ):
+				isTrue = (l.Op == token.EQL) != l.Val
+			}
+			switch kindOf(l) {
+			case "len":
+				// `len(a) != len(b)` true
+				if bo, ok := l.Cond.(*ssa.BinOp); ok {
+					if (bo.Op == token.NEQ) == l.Val {
+						unequal = true
+					}
+				}
+			case "name":
+				if isTrue {
+					nameT++
+				} else {
+					unequal = true
+				}
+			case "coll":
+				if isTrue {
+					collT++
+				} else {
+					unequal = true
+				}
+			case "both":
+				if isTrue {
+					nameT++
+					collT++
+				} else {
+					unequal = true
+				}
+			}
+		}
+		switch {
+		case res && unequal:
+			return "— it answers `same key` on path [" + pathDesc(lp) + "], on which a name, a collation or the number of columns differed"
+		case res && nameT != collT:
+			return fmt.Sprintf("— it answers `same key` on path [%s] after %d name and %d collation comparisons: every column must be compared in both", pathDesc(lp), nameT, collT)
+		case !res && !unequal:
+			return "— it answers `different keys` on path [" + pathDesc(lp) + "], on which nothing that was compared differed"
+		}
+	}
+	return ""
+}
+
+// sameColumnParams: f compares two single key columns.
+func sameColumnParams(f *ssa.Function) bool {
+	return len(f.Params) == 2 && typeIs(f.Params[0].Type(), modPkgPath("db"), "IndexColumn") && typeIs(f.Params[1].Type(), modPkgPath("db"), "IndexColumn")
 }
 
 func allStringParams(f *ssa.Function) bool {
